@@ -111,6 +111,17 @@ def rule_tpl_hdr(ctx):
                     "identifier of the deriving type: any generic input fails to compile (E0107/E0109)",
                     {"template": t.text()[:300]},
                 )
+            # (d) `Type<Args>::Item` is not an expression or pattern path (`E<T>::A` parses as a chained comparison; only
+            #     `E::<T>::A` or `<E<T>>::A` are): generic arguments applied without `::` may not be followed by `::`
+            nxt = seq[i + 1 : i + 3]
+            if len(nxt) == 2 and all(n_["t"] == "p" and n_["c"] == ":" for n_ in nxt):
+                ctx.report(
+                    f"{t.key()}:TG-path:{_prev_text(seq, i)}",
+                    f"{t.file.rel}:{t.file.line(x['span'][0])}",
+                    f"template in `{t.fn.qual}` continues `{_prev_text(seq, i)} #{x['s']}` with `::`: for a generic input this is `Type<T>::Item` in expression / pattern position, "
+                    "which does not parse (`comparison operators cannot be chained`; the derive produces unparsable tokens) - non-generic inputs expand as before",
+                    {"template": t.text()[:300]},
+                )
         for hdr, body, attrs in impl_headers(t):
             headers += 1
             roles = []
